@@ -118,11 +118,13 @@ Qed.
 (* ---- wrappers used by Properties.v ---- *)
 Lemma rt_idiv_ok nochecks a b : in_i64 a -> in_i64 b -> b <> 0 -> rt_idiv nochecks a b = lua_out (lidiv a b).
 Proof.
-  intros. unfold rt_idiv, emit_idiv, lidiv. replace (b =? 0) with false by lia. apply h_idiv_I64; auto.
+  intros. unfold rt_idiv, emit_idiv, emitted_idiv_helper, lidiv. change idiv_guard_first with true. cbn [orb].
+  replace (b =? 0) with false by lia. apply h_idiv_I64; auto.
 Qed.
 Lemma rt_imod_ok nochecks a b : in_i64 a -> in_i64 b -> b <> 0 -> rt_imod nochecks a b = lua_out (lmod a b).
 Proof.
-  intros. unfold rt_imod, emit_imod, lmod. replace (b =? 0) with false by lia. apply h_imod_I64; auto.
+  intros. unfold rt_imod, emit_imod, emitted_imod_helper, lmod. change imod_guard_first with true. cbn [orb].
+  replace (b =? 0) with false by lia. apply h_imod_I64; auto.
 Qed.
 Lemma rt_div_zero a : in_i64 a ->
   rt_idiv false a 0 = lua_out (lidiv a 0) /\ rt_imod false a 0 = lua_out (lmod a 0).
